@@ -30,7 +30,8 @@ class C18(Prop):
         "msaShuffle_spec", "permuteSeqOrder_spec", "bootstrap_only_input_columns",
         "cShuffleKmers_spec", "xShuffleKmers_spec", "iid_support", "iid_uniform",
         "cMarkov0_spec", "xMarkov0_spec", "cMarkov1_spec", "xMarkov1_spec",
-        "shuffleDP_partial", "cShuffleDP_partial", "xShuffleDP_partial", "dpWalk_edges_once")]
+        "shuffleDP_partial", "cShuffleDP_partial", "xShuffleDP_partial", "dpWalk_edges_once",
+        "vShuffle_spec", "qrna_keeps_classes", "qrna_class_perm")]
     claimed = True
     technique = ("Lean 4 proof (Fisher-Yates/swap-loop invariants, permutation and support theorems for every generator state) + "
                  "exact differential correspondence of the executable model (on the C09 generator model) with the ASan/UBSan-built C code + python property monitors on the C output")
